@@ -258,6 +258,7 @@ EXTERN	void	ADF_Read_Block_Data(
 			const double ID,
 			const cgsize_t b_start,
 			const cgsize_t b_end,
+			const char *m_data_type,
 			char *data,
 			int *error_return ) ;
 
